@@ -387,14 +387,6 @@ Qed.
 (* Every object of the schema is present under its own name, with its own definition     *)
 (* ====================================================================================== *)
 
-(* names of the objects of the other packages of the context never coincide with a local name *)
-Definition no_foreign_clash (ctx : schemas) (s : schema) : Prop :=
-  forall o, In o (all_objects ctx) -> ~ In o (objects_of s) -> ~ In (o_name o) (map o_name (objects_of s)).
-
-(* the objects the loop meets are objects of other packages *)
-Definition pending_foreign (ctx : schemas) (s : schema) (pending : list (string * object)) : Prop :=
-  forall k o, In (k, o) pending -> In o (all_objects ctx) /\ ~ In (o_name o) (map o_name (objects_of s)).
-
 Lemma foreign_loop_keeps_local : forall ctx s fuel defs pending defs',
     (forall os, (forall o, In o os -> ~ In (o_name o) (map o_name (objects_of s))) ->
                 forall k o, In (k, o) (collect_foreign ctx (s_pkg s) os) -> ~ In (o_name o) (map o_name (objects_of s))) ->
@@ -436,10 +428,6 @@ Proof.
     exists p0, n0; split; auto. apply seqb_neq; exact E. }
   intros k o H. eapply G; [|exact H]. intros k' o' [].
 Qed.
-
-(* packages are listed once: an object located in another package is not an object of s *)
-Definition pkgs_unique (ctx : schemas) : Prop :=
-  forall s1 s2, In s1 ctx -> In s2 ctx -> s_pkg s1 = s_pkg s2 -> s1 = s2.
 
 Theorem emit_schema_objects_present : forall ctx s fuel jd,
     ctx_wf ctx -> In s ctx ->
